@@ -32,40 +32,31 @@ def _is_numlike(x):
 
 
 class NativeEval(object):
-    def __init__(self, env, old_env=None, model="R", pre_ids=None, natives=None):
+    def __init__(self, env, old_env=None, model="R", pre_ids=None, natives=None, tol=TOL):
+        self.tol = tol
         self.env = env
         self.old_env = old_env
         self.model = model
         self.pre_ids = pre_ids or set()
         self.natives = natives or {}
 
-    # tolerance-aware comparison; pol=True: lenient towards True
-    def cmp(self, op, a, b, pol):
+    # three-valued comparison: None when the two reals are closer than the tolerance (model R: the code rounds, the
+    # clause does not - such a comparison decides nothing); tol == 0 or model F: exact
+    def cmp(self, op, a, b, pol=True):
+        exact = {"==": lambda x, y: x == y, "!=": lambda x, y: x != y, "<": lambda x, y: x < y,
+                 "<=": lambda x, y: x <= y, ">": lambda x, y: x > y, ">=": lambda x, y: x >= y}[op]
         if self.model == "F" or not (_is_numlike(a) and _is_numlike(b)) or \
-                (isinstance(a, int) and isinstance(b, int)):
-            return {"==": a == b, "!=": a != b, "<": a < b, "<=": a <= b, ">": a > b, ">=": a >= b}[op]
+                (isinstance(a, int) and isinstance(b, int)) or self.tol == 0:
+            return exact(a, b)
         for x in (a, b):
             if isinstance(x, float) and math.isnan(x):
-                return False if op != "!=" else True
+                return op == "!="
         if any(isinstance(x, float) and math.isinf(x) for x in (a, b)):
-            fa, fb = float(a), float(b)
-            return {"==": fa == fb, "!=": fa != fb, "<": fa < fb, "<=": fa <= fb, ">": fa > fb, ">=": fa >= fb}[op]
+            return exact(float(a), float(b))
         a, b = fractions.Fraction(a), fractions.Fraction(b)
-        eps = TOL * max(1, abs(a), abs(b))
-        if not pol:
-            eps = -eps
-        if op == "==":
-            return abs(a - b) <= eps if pol else a == b
-        if op == "!=":
-            return a != b if pol else abs(a - b) > -eps
-        if op == "<":
-            return a < b + eps
-        if op == "<=":
-            return a <= b + eps
-        if op == ">":
-            return a > b - eps
-        if op == ">=":
-            return a >= b - eps
+        if abs(a - b) <= self.tol * max(1, abs(a), abs(b)):
+            return None
+        return exact(a, b)
 
     def ev(self, node, pol=True):
         m = getattr(self, "e_" + type(node).__name__, None)
@@ -97,14 +88,13 @@ class NativeEval(object):
 
     def e_UnaryOp(self, n, pol):
         if isinstance(n.op, ast.Not):
-            return not self.ev(n.operand, not pol)
+            return k_not(self.ev(n.operand))
         v = self.ev(n.operand)
         return -v if isinstance(n.op, ast.USub) else v
 
     def e_BoolOp(self, n, pol):
-        if isinstance(n.op, ast.And):
-            return all(self.ev(v, pol) for v in n.values)
-        return any(self.ev(v, pol) for v in n.values)
+        vals = [self.ev(v) for v in n.values]
+        return k_and(vals) if isinstance(n.op, ast.And) else k_or(vals)
 
     def e_BinOp(self, n, pol):
         a, b = self.ev(n.left), self.ev(n.right)
@@ -139,16 +129,21 @@ class NativeEval(object):
                 r = r if isinstance(op, ast.In) else not r
             else:
                 sym = {ast.Eq: "==", ast.NotEq: "!=", ast.Lt: "<", ast.LtE: "<=", ast.Gt: ">", ast.GtE: ">="}[type(op)]
-                if isinstance(left, bool) or isinstance(right, bool):
+                if left is None and isinstance(right, bool) or right is None and isinstance(left, bool):
+                    r = None   # (undetermined) == bool
+                elif isinstance(left, bool) or isinstance(right, bool):
                     r = {"==": left == right, "!=": left != right}.get(sym)
                 else:
                     r = self.cmp(sym, left, right, pol)
-            out = out and r
+            out = k_and([out, r])
             left = right
         return out
 
     def e_IfExp(self, n, pol):
-        return self.ev(n.body, pol) if self.ev(n.test) else self.ev(n.orelse, pol)
+        c = self.ev(n.test)
+        if c is None:
+            raise NotEvaluable("undetermined condition")
+        return self.ev(n.body, pol) if c else self.ev(n.orelse, pol)
 
     def e_Lambda(self, n, pol):
         return n
@@ -178,18 +173,23 @@ class NativeEval(object):
                         self.env[var] = saved
             if len(lam.args.args) != 1:
                 raise NotEvaluable("multi-variable quantifier")
-            return all(body(i) for i in range(lo, hi)) if name == "forall" else any(body(i) for i in range(lo, hi))
+            vals = [body(i) for i in range(lo, hi)]
+            return k_and(vals) if name == "forall" else k_or(vals)
         if name == "old":
             if self.old_env is None:
                 raise NotEvaluable("old() without pre-state")
-            sub = NativeEval(self.old_env, None, self.model, self.pre_ids, self.natives)
+            sub = NativeEval(self.old_env, None, self.model, self.pre_ids, self.natives, self.tol)
             return sub.ev(n.args[0], pol)
         if name == "implies":
-            return (not self.ev(n.args[0], not pol)) or self.ev(n.args[1], pol)
+            return k_or([k_not(self.ev(n.args[0])), self.ev(n.args[1])])
         if name == "iff":
-            return bool(self.ev(n.args[0])) == bool(self.ev(n.args[1]))
+            a, b = self.ev(n.args[0]), self.ev(n.args[1])
+            return None if a is None or b is None else bool(a) == bool(b)
         if name == "ite":
-            return self.ev(n.args[1], pol) if self.ev(n.args[0]) else self.ev(n.args[2], pol)
+            c = self.ev(n.args[0])
+            if c is None:
+                raise NotEvaluable("undetermined condition")
+            return self.ev(n.args[1], pol) if c else self.ev(n.args[2], pol)
         if name == "let":
             lam, v = n.args[0], self.ev(n.args[1])
             var = lam.args.args[0].arg
@@ -203,7 +203,7 @@ class NativeEval(object):
         args = [self.ev(a) for a in n.args]
         if name in REG.specs:
             params, body, _ = REG.specs[name]
-            sub = NativeEval(dict(zip(params, args)), self.old_env, self.model, self.pre_ids, self.natives)
+            sub = NativeEval(dict(zip(params, args)), self.old_env, self.model, self.pre_ids, self.natives, self.tol)
             sub.env.update({k: v for k, v in self.env.items() if k not in sub.env and k.startswith("$")})
             return sub.ev(body, pol)
         if name in self.natives:
@@ -238,13 +238,34 @@ class NativeEval(object):
         raise NotEvaluable("function " + name)
 
 
-def eval_clause(text, env, old_env=None, model="R", pre_ids=None, natives=None, strict=False):
+def k_not(a):
+    return None if a is None else (not a)
+
+
+def k_and(vals):
+    if any(v is False for v in vals):
+        return False
+    if any(v is None for v in vals):
+        return None
+    return all(bool(v) for v in vals)
+
+
+def k_or(vals):
+    if any(v is True for v in vals):
+        return True
+    if any(v is None for v in vals):
+        return None
+    return any(bool(v) for v in vals)
+
+
+def eval_clause(text, env, old_env=None, model="R", pre_ids=None, natives=None, strict=False, tol=None):
     """True / False / None (not evaluable natively).  strict=False: comparisons are lenient towards the clause
     holding (postconditions: only robust violations count); strict=True: lenient towards it failing
     (preconditions: only inputs that satisfy them robustly are used)."""
     node = ast.parse(text.strip(), mode="eval").body
     try:
-        return bool(NativeEval(dict(env), old_env, model, pre_ids, natives).ev(node, not strict))
+        r = NativeEval(dict(env), old_env, model, pre_ids, natives, TOL if tol is None else tol).ev(node)
+        return None if r is None else bool(r)
     except NotEvaluable:
         return None
 
